@@ -68,12 +68,17 @@ def _register(R):
                   ("hence-no-caller-buffer-is-registered", "isnone(self.__external_buffer_view)")],
         ensures=taken_back + [
             ("a-byte-count-is-returned-only-for-bytes-written-into-the-caller's-buffer", "implies(not isnone(result), not isnone(external_buffer))", "C10"),
+            ("bytes-or-an-end-of-stream-already-pending-at-entry-are-never-skipped: the caller is sent to the internal buffer (None), also at end-of-stream",
+             "implies(old(self.__buffer_nbytes_written) > 0 or old(self.__eof_reached), isnone(result))", "C03 C10"),
+            ("a-returned-byte-count-is-exactly-the-one-buffer_updated()-stored-for-this-waiter",
+             "implies(not isnone(result), bound('FUT') and val(result) == val(FUT.value))", "C03 C10"),
             ("written-count-in-range", "0 <= self.__buffer_nbytes_written and implies(not isnone(self.__buffer), self.__buffer_nbytes_written <= len(self.__buffer))", "C10"),
         ],
         raises={"BaseException": taken_back + [("written-count-in-range", "0 <= self.__buffer_nbytes_written and implies(not isnone(self.__buffer), self.__buffer_nbytes_written <= len(self.__buffer))", "C10")]},
         modifies=[W, "self.__external_buffer_view", "self.__buffer_nbytes_written", "self.__eof_reached", "self.__connection_lost", "self.__read_paused",
                   "self.__transport", "self.__connection_lost_exception", "self.__connection_lost_exception_tb"],
         env={
+            "ghost_capture": {"create_future": {"FUT": "result"}},
             # at every suspension point of the receive: the event loop may write into the caller's buffer only while that caller is
             # really waiting (its waiter is pending) - otherwise buffer_updated() reports the bytes to nobody (cf. F4)
             "atomic_inv": [("the-caller's-buffer-is-exposed-to-the-event-loop-only-while-its-waiter-is-pending",
